@@ -276,6 +276,22 @@ def run(ctx, report: Report) -> None:
                      f'normalize_value: numbers, bytes or nested lists set through the bs4 API reach pattern.match / " ".join and '
                      f'raise TypeError')
 
+    # ---- R7 ------------------------------------------------------------------------------------------------
+    r7 = report.rule('C08-R7', 'the state pseudo-classes never raise on trees with multi-valued (list) attributes and odd text', floor=100)
+    from ..core import Rule
+    from .sem import dir_table, lang_table, lang_memo_table
+    for table in (lang_table, lang_memo_table, dir_table):
+        scratch = Rule(r7.rid, r7.title)
+        table(ctx, scratch)
+        r7.instances += scratch.instances
+        r7.nontrivial |= scratch.nontrivial
+        r7.samples.extend(scratch.samples[:2])
+        r7.obligations += 1
+        r7.discharged += 0 if any('raises' in f.message for f in scratch.findings) else 1
+        for f in scratch.findings:
+            if 'raises' in f.message:
+                r7.findings.append(f)
+
 
 
 def _spin_rule(ctx, r5, mmod, reach):
